@@ -46,10 +46,14 @@ let cont_of x =
 
 let ldef_of x =
   match S.list x with
-  | [gap; ind; key; ws1; ws2; first; more; trail] ->
+  | [gap; ind; key; ws1; ws2; first; more; trail; cmt] ->
       { d_gap = Stdlib.List.map skip_of (S.list gap); d_ind = of_s (S.atom ind); d_key = of_s (S.atom key);
         d_ws1 = of_s (S.atom ws1); d_ws2 = of_s (S.atom ws2); d_first = of_s (S.atom first);
-        d_more = Stdlib.List.map cont_of (S.list more); d_trail = of_s (S.atom trail) }
+        d_more = Stdlib.List.map cont_of (S.list more); d_trail = of_s (S.atom trail);
+        d_cmt = (match S.list cmt with
+                 | [] -> None
+                 | [semi; text] -> Some (S.atom semi = "1", of_s (S.atom text))
+                 | _ -> failwith "bad remark") }
   | _ -> failwith "bad ldef"
 
 let lsec_of x =
